@@ -13,25 +13,28 @@ import itertools, warnings
 from fractions import Fraction
 import kv, algs, opcorr as oc
 
-RULE = ('algebras: all signatures d<=2, random signatures d<=5, start index None/0/1/2, random admissible custom bases, the named algebras, '
-        'graded or not; construction forms {keys+values (int / canonical-string / mixed keys, any order), mapping, keyword blades, '
-        'grade-restricted value lists, name=, the 14 convenience constructors}; keyword / attribute spellings: ALL permutations of EVERY '
-        'blade name for d<=3 (each as a single keyword, and read back from a stored multivector), random permutations and mixtures of '
-        'canonical and permuted keywords for d<=5; value types {int, Fraction, dyadic float, sympy symbol/expression, numpy scalar and array '
-        'element}; a malformed stream {length mismatch, key outside the declared grades, invalid grades, incomplete or permuted grades in '
-        'graded mode, unknown blade names (keyword / string key / attribute), duplicate keys, out-of-range int keys}.  '
-        'Non-trivial = at least one coefficient supplied or an error expected; distinct = distinct (algebra, form, key tuple, spellings, '
-        'grades, value type).')
+RULE = ('algebras: random signatures d<=5 (d=0 included), start index None/0/1/2 and shifted ones (generators spelled with hex letters, '
+        'among them the digit e that is also the name prefix; start 6 for d=3 where e8 is a blade), random admissible custom bases, the '
+        'named algebras, graded or not; construction forms {keys+values (int / canonical-string / mixed keys, tuple or list, any order), '
+        'mapping, keyword blades, grade-restricted value lists, name=, the 14 convenience constructors with each form inside}; keyword / '
+        'attribute spellings: ALL permutations of EVERY blade name for d<=3 (each as a single keyword, in a mixture with another blade, and '
+        'read back from stored multivectors), random permutations and mixtures of canonical and permuted keywords for d<=5; value types '
+        '{int, Fraction, dyadic float, sympy symbol/expression, numpy scalar and array element, strings to sympify}; a malformed stream '
+        '{length mismatch, key outside the declared grades, invalid grades, incomplete or permuted grades in graded mode (keys, keywords, '
+        'mapping, name), unknown blade names (keyword alone / mixed with valid ones, string key, mapping key, attribute), duplicate keys, '
+        'out-of-range int keys}; regression streams for the repaired defects.  Non-trivial = at least one coefficient supplied or an error '
+        'expected; distinct = distinct (algebra, constructor, form, input, value type).')
 TRUSTED = ['hand-written model coq/Model/Construct.v (tied to the source only by this correspondence)',
-           'Model/Alg.v mk_default / mk_custom for the algebra (covered by C01)',
-           'the harness encodes supplied values as integer codes and decodes read-back values by ==',
+           'Model/Alg.v mk_default / mk_custom / blade2canon for the algebra (covered by C01)',
+           'the harness encodes supplied values as integer codes and decodes read-back values by == (numpy: array_equal)',
            'python oracle helpers (generator bits, inversion parity) are 10 lines and independent of kingdon']
-ASSUMPTIONS = ['keyword / attribute names start with the letter e or contain a character that is no hex digit (the model sees only name[1:])',
-               'no generator is spelled with the hex digit e and the fallback name e{2**d} is no blade, except in the dedicated probes',
-               'keys and grades are passed as tuples (a list of int keys is rejected in graded mode: list != tuple)',
-               'the same blade is not given twice under two spellings and spellings do not repeat a generator, except in the duplicate stream '
-               '(compared with the model only)',
-               'string values (sympified by the constructor) and the default filter() predicate are exercised by the oracle only']
+ASSUMPTIONS = ['a keyword / attribute name is seen by the model through name[1:] (kingdon looks at name[0] only via `name in canon2bin`); '
+               'characters that are no lower-case hex digit are encoded as numbers that are no generator',
+               'grades are passed as tuples (a list is unhashable: TypeError before anything is looked at)',
+               'the same blade is not given twice under two spellings and spellings do not repeat a generator (documented exclusions); '
+               'duplicate keys are compared with the model only',
+               'string values (sympified by the constructor) and the default filter() predicate are exercised by the oracle only',
+               'keyword blades given together with values/keys are ignored by the constructor; not generated']
 
 HEX = '0123456789abcdef'
 SYM_BASE = 1000
@@ -712,6 +715,11 @@ def malformed_case(cx, rng, spec):
         sub = 'permuted'
     at = Atoms(rng, len(ks), vtype)
     which = rng.choice(['kv', 'kw', 'name', 'conv', 'map', 'map']) if sub == 'incomplete' else rng.choice(['kv', 'map'])
+    if which in ('kw', 'conv'):
+        # keyword blades are re-ordered canonically by the constructor: only the key SET can be incomplete
+        own = sorted({grade_of(k) for k in ks})
+        if set(ks) == {k for g in own for k in A.indices_for_grade[g]}:
+            return malformed_case(cx, rng, spec)
     if which == 'kv':
         inp = {'keys': [k if rng.random() < 0.7 else A.bin2canon[k] for k in ks], 'values': list(at.given)}
         if rng.random() < 0.3:
@@ -824,7 +832,7 @@ def exhaustive_spellings(cx, rng, dmax, sample_above):
 
 
 PROBES = [
-    # (clause, algebra spec, python thunk description): the dedicated probes of the deviations reported with the round
+    # (clause, algebra spec, constructor, input): regression inputs of defects repaired in kingdon (fixed: lines of known_findings.txt)
     ('graded-mapping-incomplete', {'sig': [1, 1, 1], 'graded': True}, 'multivector', {'values': {3: 1}}),
     ('graded-mapping-incomplete', {'sig': [1, 1, 1], 'graded': True}, 'vector', {'values': {1: 1}}),
     ('keyword-unknown-dropped', {'sig': [1, 1, 1]}, 'multivector', {'items': {'e4': 2, 'e1': 1}}),
@@ -833,8 +841,9 @@ PROBES = [
 
 
 def probe_streams(cx, rng):
-    """the input classes on which the faithful model REFUTES a clause (Theory/Construct.v *_refuted): each is
-    one R.violation class; they are known findings or fixed, never silently skipped."""
+    """regression streams: the inputs on which kingdon contradicted the property before the fix: commits of this round
+    (graded mapping with incomplete grades, unknown keyword silently dropped, wrong parity with a generator spelled e,
+    the fallback name e{2**d} of _blade2canon colliding with a real blade, list keys rejected in graded mode)."""
     R = cx.R
     for clause, spec, ctor, inp in PROBES:
         A = cx.alg(spec)
@@ -844,7 +853,12 @@ def probe_streams(cx, rng):
         at.given = at.expect = allv
         R.count('probe=' + clause)
         run_case(cx, spec, ctor, inp, at, None, 'probe', rng, malformed=clause, accessors=False)
-    # a generator spelled with the hex digit e: the leading 'e' of the name is found by list.index
+    # keys given as a list in graded mode (was rejected: list != tuple)
+    spec = {'sig': [1, 1, 1], 'graded': True}
+    at = Atoms(rng, 3, 'int')
+    R.count('probe=graded-list-keys')
+    run_case(cx, spec, 'multivector', {'keys': [1, 2, 4], 'values': list(at.given), 'keys_as_list': True}, at, {1: 1, 2: 2, 4: 3}, 'kv', rng, accessors=False)
+    # a generator spelled with the hex digit e: the leading 'e' of the name was found by list.index
     spec = {'sig': [1, 1, 1], 'start': 13}
     A = cx.alg(spec)
     at = Atoms(rng, 1, 'int')
@@ -856,8 +870,7 @@ def probe_streams(cx, rng):
     if g != -1:
         R.violation({'clause': 'generator-e-parity', 'basis': 'default', 'graded': False},
                     {'algebra': spec, 'ctor': 'probe', 'form': 'generator-e-parity', 'inp': {}},
-                    'generator-e-parity: Algebra(3, start_index=13): x = 1*edef; x.edfe returns +1 although edfe is an odd permutation of edef '
-                    '(_blade2canon hands the names with their leading e to _swap_blades)')
+                    'generator-e-parity: Algebra(3, start_index=13): x = 1*edef; x.edfe does not return -1 although edfe is an odd permutation of edef')
     # the fallback name e{2**d} of _blade2canon is a real blade
     spec = {'sig': [1, 1, 1], 'start': 6}
     A = cx.alg(spec)
@@ -869,8 +882,7 @@ def probe_streams(cx, rng):
     if g != 0:
         R.violation({'clause': 'fallback-name-collision', 'basis': 'default', 'graded': False},
                     {'algebra': spec, 'ctor': 'probe', 'form': 'fallback-name-collision', 'inp': {}},
-                    'fallback-name-collision: Algebra(3, start_index=6): x = 1*e8; x.e5 returns the coefficient of e8 although e5 is no blade '
-                    "(_blade2canon maps unknown names to f'e{2**d}' = 'e8', a real blade here; the same happens with e256 in every 8-dimensional algebra)")
+                    'fallback-name-collision: Algebra(3, start_index=6): x = 1*e8; x.e5 does not return 0 although e5 is no blade of the algebra')
 
 
 def run(R, tier):
@@ -885,7 +897,7 @@ def run(R, tier):
     for _ in range(reps):
         exhaustive_spellings(cx, rng, 3, above if _ == 0 else [])
     # 2. random consistent inputs of every form, with all accessors
-    n = 260 if quick else 9000
+    n = 450 if quick else 12000
     for i in range(n):
         spec = rand_spec(rng)
         A = cx.alg(spec)
@@ -894,7 +906,7 @@ def run(R, tier):
         mal = 'invalid-grades' if form == 'conv-invalid' else None
         run_case(cx, spec, ctor, inp, at, expect, form, rng, malformed=mal, accessors=(i % 2 == 0 or not quick))
     # string values: sympified, oracle only
-    for i in range(10 if quick else 200):
+    for i in range(20 if quick else 400):
         spec = rand_spec(rng, graded=False)
         A = cx.alg(spec)
         ks = pick_keys(rng, A, False)[:5]
@@ -904,7 +916,7 @@ def run(R, tier):
             {'items': {A.bin2canon[k]: v for k, v in zip(ks, at.given)}}
         run_case(cx, spec, 'multivector', inp, at, {k: j + 1 for j, k in enumerate(ks)}, form + '-str', rng, accessors=False, model=False)
     # 3. malformed stream
-    for i in range(220 if quick else 7000):
+    for i in range(400 if quick else 10000):
         spec = rand_spec(rng)
         A = cx.alg(spec)
         R.count(f'd={A.d}'); R.count('graded=' + str(bool(spec.get('graded'))))
